@@ -764,8 +764,9 @@ class Operation:
         if step_details_input := data.get("StepDetails"):
             step_details = StepDetails.from_dict(step_details_input)
 
+        # An empty dict is a valid wire form (no optional field set), so test for presence, not truthiness
         wait_details = None
-        if wait_details_input := data.get("WaitDetails"):
+        if (wait_details_input := data.get("WaitDetails")) is not None:
             wait_details = WaitDetails.from_dict(wait_details_input)
 
         callback_details = None
@@ -773,9 +774,11 @@ class Operation:
             callback_details = CallbackDetails.from_dict(callback_details_input)
 
         chained_invoke_details = None
-        if chained_invoke_details := data.get("ChainedInvokeDetails"):
+        if (
+            chained_invoke_details_input := data.get("ChainedInvokeDetails")
+        ) is not None:
             chained_invoke_details = ChainedInvokeDetails.from_dict(
-                chained_invoke_details
+                chained_invoke_details_input
             )
 
         return cls(
@@ -816,7 +819,14 @@ class Operation:
                 "InputPayload": self.execution_details.input_payload
             }
         if self.context_details:
-            result["ContextDetails"] = {"Result": self.context_details.result}
+            context_dict: MutableMapping[str, Any] = {
+                "Result": self.context_details.result
+            }
+            if self.context_details.replay_children:
+                context_dict["ReplayChildren"] = self.context_details.replay_children
+            if self.context_details.error:
+                context_dict["Error"] = self.context_details.error.to_dict()
+            result["ContextDetails"] = context_dict
         if self.step_details:
             step_dict: MutableMapping[str, Any] = {"Attempt": self.step_details.attempt}
             if self.step_details.next_attempt_timestamp:
